@@ -28,10 +28,15 @@ def accStr (a : Pcore.Lockset.Access) : String :=
 /-- `lockrace`: `none` when the regenerated lock-set table satisfies the discipline, otherwise the offending access
     site and a conflicting one (the implementation side always answers `none`) -/
 def lockrace : String :=
+  let show1 : Option (Pcore.Lockset.Access × Option Pcore.Lockset.Access) → String
+    | none => "none"
+    | some (a, none) => "undisciplined: " ++ accStr a
+    | some (a, some b) => "race: " ++ accStr a ++ " || " ++ accStr b
   match Pcore.Lockset.raceWitness Pcore.Generated.locksets with
-  | none => "none"
-  | some (a, none) => "undisciplined: " ++ accStr a
-  | some (a, some b) => "race: " ++ accStr a ++ " || " ++ accStr b
+  | some w => show1 (some w)
+  | none =>
+    -- the runtime's loaders and settings (rt.lock), without the recorded unlocked read of rt.SystemLoader
+    show1 (Pcore.Lockset.raceWitness (Pcore.Lockset.withoutKnown Pcore.Lockset.knownUnlockedReads Pcore.Generated.rtLocksets))
 
 /-! `cache (val VAL) (threads (th OP*)…) (sched T*)` — harness/c13/cache.go -/
 open Pcore.LazyCache in
@@ -40,10 +45,15 @@ def scalarOK : Sexp → Bool
   | .list [.atom "s", x] => x.bytes?.isSome
   | _ => false
 
+/-- `(y)`: a slow element of an Array (its own PType() is a yield point) -/
+def isSlow : Sexp → Bool
+  | .list [.atom "y"] => true
+  | _ => false
+
 open Pcore.LazyCache in
-/-- kind and size of the shared value; `none` = malformed (as the harness decides) -/
-def valOf : Sexp → Option (Kind × Nat)
-  | .list (.atom "a" :: es) => if es.all scalarOK then some (.arr, es.length) else none
+/-- kind, size and number of slow elements of the shared value; `none` = malformed (as the harness decides) -/
+def valOf : Sexp → Option (Kind × Nat × Nat)
+  | .list (.atom "a" :: es) => if es.all (fun e => scalarOK e || isSlow e) then some (.arr, es.length, (es.filter isSlow).length) else none
   | .list (.atom "h" :: kvs) => do
     let ks ← kvs.mapM fun kv => match kv with
       | .list [k, v] => if scalarOK k && scalarOK v && toString k != "(s x)" then some k else none
@@ -52,7 +62,7 @@ def valOf : Sexp → Option (Kind × Nat)
     if texts.eraseDups.length != texts.length then none
     else
       let mixed := ks.any fun k => match k with | .list (.atom "i" :: _) => true | _ => false
-      some (if mixed then .hshMixed else .hshStr, ks.length)
+      some (if mixed then .hshMixed else .hshStr, ks.length, 0)
   | _ => none
 
 open Pcore.LazyCache in
@@ -67,15 +77,17 @@ def copOf : Sexp → Option COp
 
 open Pcore.LazyCache in
 def obsStr : Obs → String
-  | .full => "full" | .half => "half" | .fault => "fault"
+  | .full => "full" | .half => "half" | .fault => "fault" | .narrow => "narrow"
 
 open Pcore.LazyCache in
 def cacheExec (v : Sexp) (ths sch : List Sexp) : String :=
   match valOf v, ths.mapM (fun t => match t with
       | .list (.atom "th" :: ops) => ops.mapM copOf
       | _ => none), sch.mapM Sexp.nat? with
-  | some (kind, size), some (p :: progs), some sched =>
-    let c := execute (Cfg.ofTable Pcore.Generated.cacheSites) kind size (p :: progs) sched
+  | some (kind, size, slow), some (p :: progs), some sched =>
+    -- a value with slow elements is only asked for its types (the other reads would need an equal fresh value)
+    if slow > 0 && (p :: progs).any (·.any (· == COp.pure)) then "bad-op" else
+    let c := execute (Cfg.ofTables Pcore.Generated.cacheSites Pcore.Generated.cacheWrites) kind size (p :: progs) sched slow
     let rec go (i : Nat) : List Pcore.LazyCache.Thread → List String
       | [] => []
       | t :: r => s!"{i}:[{" ; ".intercalate (t.log.map obsStr)}]" :: go (i + 1) r
@@ -117,8 +129,11 @@ def filesExec (fs ths sch : List Sexp) : String :=
     finding) is only ever assigned a complete value, otherwise the offending site (the implementation side answers `none`) -/
 def cacherace : String :=
   match Pcore.LazyCache.publishOffender Pcore.LazyCache.knownPublishFirst Pcore.Generated.cacheSites with
-  | none => "none"
   | some s => s!"publish-before-init: {s.fn} assigns {s.field} and completes the object afterwards (a reader outside the lock gets it half-built)"
+  | none =>
+    match Pcore.LazyCache.completionOffender Pcore.Generated.cacheWrites with
+    | none => "none"
+    | some w => s!"in-place-completion: {w.fn} assigns {w.target} more than once (or in a loop) after it has published the object: a reader gets an intermediate value, which need not be a type of the value at all"
 
 def exec : List Sexp → String
   | [.atom "lockrace"] => lockrace
@@ -128,6 +143,14 @@ def exec : List Sexp → String
   | [.atom "structrace", n, r] =>        -- free-running on the implementation side; on a correct tree the only answer
     match n.nat?, r.nat? with
     | some n, some r => if n = 0 ∨ r = 0 ∨ n > 100000 ∨ r > 50 then "bad-op" else "full"
+    | _, _ => "bad-op"
+  | [.atom "typerace", n, r] =>          -- free-running on the implementation side; on a correct tree the only answer
+    match n.nat?, r.nat? with
+    | some n, some r => if n = 0 ∨ r = 0 ∨ n > 200000 ∨ r > 50 then "bad-op" else "ok"
+    | _, _ => "bad-op"
+  | [.atom "sysloader", n, r] =>         -- free-running on the implementation side; on a correct tree the only answer
+    match n.nat?, r.nat? with
+    | some n, some r => if n < 2 ∨ r = 0 ∨ n > 64 ∨ r > 50 then "bad-op" else "ok"
     | _, _ => "bad-op"
   | [.atom "declstress", n, r] =>        -- free-running on the implementation side; on a correct tree the only answer
     match n.nat?, r.nat? with
